@@ -28,7 +28,7 @@ ASSUMPTIONS = [
     'across transpose',
 ]
 ANCHORS = ['Table.sort_order', 'Table.sort', 'Table.align_to', 'Table.transpose', 'Table.update_ids', 'Table.copy', 'natsort']
-REQUIRED = ['sorter_result_changed_by_caller', 'natural_order_checked', 'natsort_probes', 'natsort_decimal_checked', 'result_metadata_edits', 'sort_order', 'sort', 'align_to', 'transpose', 'copy',
+REQUIRED = ['id_map_of_another_mapping_type', 'sorter_result_changed_by_caller', 'natural_order_checked', 'natsort_probes', 'natsort_decimal_checked', 'result_metadata_edits', 'sort_order', 'sort', 'align_to', 'transpose', 'copy',
             'update_ids', 'update_ids_refused', 'align_refused',
             'inverse_roundtrips', 'layout_csc_seen', 'layout_unsorted_seen',
             'objdtype_ids']
@@ -391,7 +391,19 @@ def run_random(ctx, index):
             exp.obs_ids = new_ids
         else:
             exp.samp_ids = new_ids
-        res = t.update_ids(dict(m), axis=axis, strict=strict, inplace=inplace)
+        given = dict(m)
+        if r.random() < .25:
+            # the map as another kind of mapping: one that answers for keys
+            # it does not hold (a defaultdict), or a read-only view
+            import collections
+            import types
+            if r.random() < .6:
+                given = collections.defaultdict(str, m)
+            else:
+                given = types.MappingProxyType(dict(m))
+            desc['id_map_kind'] = type(given).__name__
+            ctx.count('id_map_of_another_mapping_type')
+        res = t.update_ids(given, axis=axis, strict=strict, inplace=inplace)
         ctx.count('update_ids')
         ctx.cls('rename_style', style + ('/partial' if partial else ''))
         if (res is t) != inplace:
@@ -430,6 +442,10 @@ def run_random(ctx, index):
             m = {ids[0]: 'only-one'}
             strict = True
         desc.update(kind=kind, id_map=m, strict=strict, inplace=inplace)
+        if kind == 'missing-strict' and r.random() < .5:
+            import collections
+            m = collections.defaultdict(str, m)
+            desc['id_map_kind'] = 'defaultdict'
         try:
             t.update_ids(m, axis=axis, strict=strict, inplace=inplace)
         except Exception:
